@@ -933,8 +933,11 @@ func genHist(r *vh.Rand, k int, class, prof string, nops int, big bool) Hist {
 			} else {
 				op.Size = grid[r.Intn(4)]
 			}
-		case x < 80:
+		case x < 80 && prof == "none":
+			// (with a wrapper or transform a channel over TCP never works: known finding, corpus only)
 			op.Kind, op.On = "chan", r.Intn(5) < 3
+		case x < 80:
+			op.Kind, op.Val = "pause", 1+r.Intn(40)
 		case x < 86:
 			op.Kind, op.Val = "sleep", []int{5, 10, 20}[r.Intn(3)]
 		case x < 90:
@@ -943,6 +946,18 @@ func genHist(r *vh.Rand, k int, class, prof string, nops int, big bool) Hist {
 			op.Kind, op.Val = "pause", 1+r.Intn(40)
 		}
 		h.Ops = append(h.Ops, op)
+	}
+	return h
+}
+
+// teardown: a channel-mode session that is left idle for a little more than 5 x sleep before
+// every task, so that the client's channel reader times out around the time the task travels
+// (representative of the known finding "a packet in transit when a channel is torn down is lost")
+func teardown(class string, size, n int) Hist {
+	h := Hist{Class: class, NCl: 2, Profile: "none", SleepMs: []int{5, 10}, MaxJobs: 40, MaxSlots: 100,
+		Ops: []Op{{Kind: "chan", C: 0, On: true}, {Kind: "task", C: 1, Size: 100, Seed: 90}}}
+	for i := 0; i < n; i++ {
+		h.Ops = append(h.Ops, Op{Kind: "pause", C: 0, Val: 24 + i%9}, Op{Kind: "task", C: 0, Size: size, Seed: uint32(100 + i)})
 	}
 	return h
 }
@@ -963,6 +978,12 @@ func corpus() []Hist {
 				{Kind: "task", C: 1, Size: 0, Seed: 16}}},
 		{Class: "corpus-xorzlib", NCl: 2, Profile: "xorzlib", SleepMs: []int{10, 10}, MaxJobs: 40, MaxSlots: 100,
 			Ops: []Op{{Kind: "task", C: 0, Size: 100, Seed: 17}, {Kind: "task", C: 1, Size: 1024, Seed: 18}, {Kind: "task", C: 0, Size: F + 1, Seed: 19}}},
+		teardown("corpus-channel-teardown", 100, 44),
+		teardown("corpus-channel-teardown-frag", F+1, 14),
+		{Class: "corpus-channel-xorzlib", NCl: 2, Profile: "xorzlib", SleepMs: []int{20, 20}, MaxJobs: 40, MaxSlots: 100,
+			Ops: []Op{{Kind: "chan", C: 0, On: true}, {Kind: "pause", Val: 300}, {Kind: "task", C: 0, Size: 100, Seed: 23}, {Kind: "task", C: 1, Size: 100, Seed: 24}}},
+		{Class: "corpus-channel-b64", NCl: 2, Profile: "b64", SleepMs: []int{20, 20}, MaxJobs: 40, MaxSlots: 100,
+			Ops: []Op{{Kind: "chan", C: 0, On: true}, {Kind: "pause", Val: 300}, {Kind: "task", C: 0, Size: 100, Seed: 25}, {Kind: "task", C: 1, Size: 100, Seed: 26}}},
 		{Class: "corpus-b64", NCl: 2, Profile: "b64", SleepMs: []int{10, 10}, MaxJobs: 40, MaxSlots: 100,
 			Ops: []Op{{Kind: "task", C: 0, Size: 100, Seed: 20}, {Kind: "task", C: 1, Size: 1024, Seed: 21}, {Kind: "task", C: 0, Size: F + 1, Seed: 22}}},
 	}
